@@ -360,6 +360,98 @@ def spaces(tier, variant, seed):
     sp.append(Space("urandomm_reaches_both_halves", list(range(len(KINDS))), um_cases, um_one,
                     "mpz_urandomm on 12 multi-limb moduli whose upper half holds at least a third of the range x generator kinds x 2 seeds: 96 draws hit both halves (declared statistical, failure probability below 2^-55 per case for a uniform generator)"))
 
+    # gmp_urandomm_ui / gmp_urandomb_ui must reach the upper half of their range as well (a result narrowed to 32 bits stays "in range")
+    UMU = [(1 << 48) + 1, (1 << 63) - 25, 1 << 40, M, (1 << 33) - 1, 3 << 40, (1 << 32) + 1, (1 << 63) + 1]
+
+    def uu_cases(blk):
+        ki = blk
+        for mi in range(len(UMU) + 4):
+            for sd in (1, 77):
+                yield (ki, mi, sd)
+
+    def uu_one(case, R):
+        ki, mi, sd = case
+        kind = KINDS[ki]
+        st1, p1 = mkstate(kind, sd)
+        hi = lo = 0
+        if mi < len(UMU):
+            m = UMU[mi]
+            half = 1 << (m.bit_length() - 1)
+            if m - half < m // 3:
+                half = m // 2
+            what = "gmp_urandomm_ui modulus %x" % m
+            for i in range(96):
+                v = f_um_ui(p1, m)
+                if not 0 <= v < m:
+                    R.fail("gmp_urandomm_ui", "%s modulus %x: %x out of range" % (kind, m, v))
+                    break
+                if v >= half:
+                    hi += 1
+                else:
+                    lo += 1
+        else:
+            nb = (33, 48, 63, 64)[mi - len(UMU)]
+            what = "gmp_urandomb_ui %d bits" % nb
+            for i in range(96):
+                v = f_ub_ui(p1, nb)
+                if v >> nb:
+                    R.fail("gmp_urandomb_ui", "%s %d bits: %x out of range" % (kind, nb, v))
+                    break
+                if v >> (nb - 1):
+                    hi += 1
+                else:
+                    lo += 1
+        f_clear(p1)
+        if hi == 0 or lo == 0:
+            R.fail(what.split()[0], "%s seed %d, %s: %d of 96 draws in the upper part of the range and %d below it" % (kind, sd, what, hi, lo))
+        R.count("states", 96)
+        return (ki, mi, hi > 20)
+
+    sp.append(Space("urandom_ui_reaches_both_halves", list(range(len(KINDS))), uu_cases, uu_one,
+                    "gmp_urandomm_ui on 8 moduli above 2^32 and gmp_urandomb_ui with 33/48/63/64 bits x generator kinds x 2 seeds: 96 draws hit both halves of the range (statistical, failure probability below 2^-55 per case)"))
+
+    # every size lc_2exp_size accepts: the generator built from the table entry must keep producing varied output (a bad multiplier or
+    # increment drives an LC generator into a short cycle or a fixed point after some steps)
+    def th_cases(blk):
+        lo = blk
+        for size in range(lo, lo + 8):
+            yield (size,)
+
+    def th_one(case, R):
+        (size,) = case
+        st = (ctypes.c_char * RSZ)()
+        p = addressof(st)
+        if not f_init_lcs(p, size):
+            return ("th", size, "rejected")
+        f_seed_ui(p, 12345)
+        nb = min(max(size, 8), 64)
+        last, run, maxrun = None, 0, 0
+        ones = [0] * nb
+        N = 600
+        for i in range(N):
+            v = f_ub_ui(p, nb)
+            if v == last:
+                run += 1
+                maxrun = max(maxrun, run)
+            else:
+                run = 0
+            last = v
+            for b in range(nb):
+                if (v >> b) & 1:
+                    ones[b] += 1
+        f_clear(p)
+        if maxrun >= 8:
+            R.fail("gmp_randinit_lc_2exp_size", "size %d: %d consecutive identical %d-bit draws" % (size, maxrun + 1, nb))
+        for b in range(nb):
+            if not (N // 5 <= ones[b] <= N - N // 5):
+                R.fail("gmp_randinit_lc_2exp_size", "size %d: bit %d of %d-bit draws set in %d of %d draws" % (size, b, nb, ones[b], N))
+                break
+        R.count("states", N)
+        return ("th", size, maxrun)
+
+    sp.append(Space("lc_size_table_health", list(range(1, 137, 8)), th_cases, th_one,
+                    "every size 1..136 given to gmp_randinit_lc_2exp_size: 600 draws of min(size,64) bits show no 9 identical consecutive draws and every bit set between 20% and 80% of the time (wide, fixed tolerance)"))
+
     sp.append(Space("reseed_equals_fresh", [(ki, part) for ki in range(len(KINDS)) for part in range(4)], rs_cases, rs_one,
                     "a state seeded with s0, advanced by 0/1/100/700 words and seeded again with s gives the same 720 words (and a 1000-bit draw) as a fresh state seeded with s: s in 0..33, 5489, multi-limb seeds with bit 19936 set/clear"))
 
